@@ -147,6 +147,11 @@ class Model:
         self.memo_hits = 0
         self.late_ignore = late_ignore
         self._re = {}
+        # operator tables: 'statement' = a longer infix operator wins over a postfix operator at the same
+        # place (C02 as stated); 'code' = postfix operators are always read first (what sourcer does; only
+        # used to attribute a disagreement to that known mechanism)
+        self.optable_reading = 'statement'
+        self.shadow_events = 0
 
     # -- lookup -----------------------------------------------------------
     def lookup(self, name, from_level):
@@ -646,6 +651,14 @@ class OpTable:
                     break
         return best
 
+    def operand_follows(self, q):
+        while True:
+            m = self.match_ops(('prefix',), q)
+            if not m or m[3] == q:
+                break
+            q = m[3]
+        return self.operand(q) is not FAIL
+
     def tokenize(self, p):
         toks = []
         end = None
@@ -673,6 +686,15 @@ class OpTable:
                     break
                 if m[3] == q:
                     raise IllFormed('nullable postfix operator')
+                # "among operators of different rows matching at the same place the longest match wins":
+                # a postfix operator does not shadow a longer infix operator that starts at the same
+                # place and is followed by an operand (an operator without operand is left unconsumed,
+                # so the postfix operator stands in that case)
+                mi = self.match_ops(('left', 'right', 'infix'), q)
+                if mi and mi[3] > m[3]:
+                    self.m.shadow_events += 1
+                    if self.m.optable_reading == 'statement' and self.operand_follows(mi[3]):
+                        break
                 toks.append(('post', m[0], m[2], m[3]))
                 q = m[3]
             end = q
@@ -776,11 +798,12 @@ def norm_model(v):
     return v
 
 
-def expected(chain, text, entry=None, pos=0, fullparse=True, budget=200000, late_ignore=True):
+def expected(chain, text, entry=None, pos=0, fullparse=True, budget=200000, late_ignore=True, optable_reading='statement'):
     """Outcome the documented meaning assigns to <entry>.parse(text,pos,fullparse).
 
     entry None = module-level parse.  Returns (outcome, model)."""
     m = Model(chain, text, budget=budget, late_ignore=late_ignore)
+    m.optable_reading = optable_reading
     name = m.entry_name() if entry is None else entry
     if isinstance(name, tuple):
         # a parameterised class used as entry point, Cls.parse(*values)(text, ...): the class body with
